@@ -269,7 +269,11 @@ def check_actor(ctx, a, where):
     if st.get('rejected'):
         ctx.fail('reference-rejects-self-signature', dict(where, examples=st.get('rejected_examples', [])[:3]))
     # ... and PGPy, before and after export -> import
-    for form, pk in (('twin', pub), ('reimported', pg.PGPKey.from_blob(blob)[0])):
+    # third view: the export with grant-everything / never-expires / primary / other-preferences subpackets appended to the UNSIGNED area of every
+    # self-signature and binding - what the self-signatures say is what their signed part says
+    from .. import unhashed
+    ublob, _n = unhashed.inject(blob, {0x10, 0x11, 0x12, 0x13, 0x18, 0x1F}, unhashed.ALL + unhashed.NOT_EXPORTABLE)
+    for form, pk in (('twin', pub), ('reimported', pg.PGPKey.from_blob(blob)[0]), ('reimported-with-unsigned-additions', pg.PGPKey.from_blob(ublob)[0])):
         if form == 'reimported':
             ctx.count('reimports')
         try:
